@@ -156,6 +156,7 @@ func runC08(c *core.Ctx) core.Meta {
 	checkIntegerWidths(c, "R08.12", "Grid arithmetic is not narrowed, nor widened after it could wrap.", 5, []widthScope{{rel: kernelsPkg}}, []string{"narrow", "widen-wrapped", "unsigned-diff"}, widthAllowC08)
 	RunProto(c, &ProtoCfg{AllEffectsAfterSend: true, RuleBase: "R08.13", Pkg: dispPkg, FloorSends: 2, Effects: []Effect{RetrieveEffect, FieldWriteEffect("currWG.valid-write", "dispatchLocation.valid"), FieldWriteEffect("numDispatchedWGs-write", "DispatcherImpl.numDispatchedWGs"), FieldWriteEffect("inflightWGs-write", "DispatcherImpl.inflightWGs")}, Exempt: map[string]string{}})
 	checkResultFresh(c, "R08.14", "Driver.distributeWGToGPUs returns a range table allocated by that call: the work-group filters handed to the GPUs keep it and are consulted lazily by the grid builders, so a table kept in the driver and rewritten by the next launch changes the ranges of a launch that is still being enumerated", driverPkg, "Driver.distributeWGToGPUs", 0)
+	checkWGCountersStepByOne(c, "R08.15")
 	return core.Meta{Level: "other",
 		Explanation: "Structural clauses of the grid partition: one ceil(grid/wg) formula (same dimension, recognised form) at every counting site of the grid builder, the driver and both register initialisations; partial sizes min(grid - id*wg, wg) per dimension, x-fastest enumeration and spawning bounded by the current sizes; wavefront membership keyed on in-group id / 64 with lane bit id % 64 and first flat id quotient*64, the in-group id formula and its inverse decomposition in both modes' lane-id initialisation; the multi-GPU filter's flattening and half-open cumulative ranges. Shared with C02: identical initial registers in both modes (R02.2).",
 		NotDecided:  "the partition as arithmetic over all grid and work-group sizes (every work-item exactly once) is not proved; only the formulas' shapes and their mutual consistency are decided",
